@@ -263,6 +263,8 @@ Lemma law_step_clauses E before o ob :
   let E' := edges_after E o in
   let '(expected, target) := plain before o in
   (* 1 *) forallb (fun e => negb (has_edge (snd e, fst e) E')
+                           || (has_edge e E && has_edge (snd e, fst e) E
+                               && negb (oval_eqb (sval before (fst e)) (sval before (snd e))))
                            || oval_eqb (sval (ob_vals ob) (fst e)) (sval (ob_vals ob) (snd e))) E' = true /\
   (* 4 *) forallb (fun y => has_node y (reach E' (origins o expected))
                             || negb (alive_in before (fst y) && alive_in (ob_vals ob) (fst y))
